@@ -26,6 +26,11 @@ class Unsupported(AnalysisError):
             line, src(node)[:120] if isinstance(node, ast.AST) else node, why))
 
 
+class NeedZero(Exception):
+    """A time term is compared with an integer literal (or tested for truth): the order
+    type must contain the symbol '0'.  Drivers re-enumerate with it."""
+
+
 class Fork(Exception):
     def __init__(self, key):
         self.key = key
@@ -192,6 +197,26 @@ class LoopVar:
         return "<elem of %r>" % (self.rng,)
 
 
+class IterV:
+    """iter(list): a cursor over a concrete abstract sequence."""
+
+    def __init__(self, items):
+        self.items = list(items)
+        self.pos = 0
+
+    def drain(self):
+        r = self.items[self.pos:]
+        self.pos = len(self.items)
+        return r
+
+    def __repr__(self):
+        return "iter(%r)" % (self.items[self.pos:],)
+
+
+class _NotConcrete(Exception):
+    pass
+
+
 class SelfV:
     def __repr__(self):
         return "self"
@@ -207,7 +232,7 @@ class Builtin:
         self.name = name
 
 
-BUILTINS = ("isinstance", "type", "range", "max", "min", "len", "list", "sorted", "set", "int", "tuple")
+BUILTINS = ("isinstance", "type", "range", "max", "min", "len", "sorted", "set", "iter", "next", "zip", "enumerate")
 
 
 def truth(v, node=None):
@@ -234,9 +259,23 @@ class Interp:
         self.steps = 0
 
     # -- integer reasoning -------------------------------------------------
+    def truth(self, v, node=None):
+        if isinstance(v, Int):
+            # an integer is falsy iff it equals the literal 0
+            return self.cmp_int(v, Const(0), "!=", node)
+        return truth(v, node)
+
     def cmp_int(self, a, b, op, node=None):
         if isinstance(a, Const) and isinstance(b, Const):
             return _pycmp(a.v, b.v, op)
+        if isinstance(a, Int) and isinstance(b, Const) and isinstance(b.v, int) and not isinstance(b.v, bool):
+            if not self.ot.has("0"):
+                raise NeedZero()
+            b = Int("0", b.v)
+        if isinstance(b, Int) and isinstance(a, Const) and isinstance(a.v, int) and not isinstance(a.v, bool):
+            if not self.ot.has("0"):
+                raise NeedZero()
+            a = Int("0", a.v)
         if isinstance(a, Int) and isinstance(b, Int):
             r = self.w.cmp_special(a, b, op)
             if r is not None:
@@ -276,7 +315,7 @@ class Interp:
         elif isinstance(st, ast.Pass):
             return
         elif isinstance(st, ast.If):
-            if truth(self.eval(st.test, env), st.test):
+            if self.truth(self.eval(st.test, env), st.test):
                 self.exec_block(st.body, env)
             else:
                 self.exec_block(st.orelse, env)
@@ -328,6 +367,8 @@ class Interp:
 
     def exec_for(self, st, env):
         it = self.eval(st.iter, env)
+        if isinstance(it, IterV):
+            it = ListObj(it.drain())
         if isinstance(it, ListObj) or isinstance(it, TupleV):
             items = list(it.items)
             broke = False
@@ -448,18 +489,18 @@ class Interp:
                 v = TRUE
                 for x in e.values:
                     v = self.eval(x, env)
-                    if not truth(v, x):
+                    if not self.truth(v, x):
                         return v
                 return v
             v = FALSE
             for x in e.values:
                 v = self.eval(x, env)
-                if truth(v, x):
+                if self.truth(v, x):
                     return v
             return v
         if isinstance(e, ast.UnaryOp):
             if isinstance(e.op, ast.Not):
-                return Const(not truth(self.eval(e.operand, env), e.operand))
+                return Const(not self.truth(self.eval(e.operand, env), e.operand))
             if isinstance(e.op, ast.USub):
                 v = self.eval(e.operand, env)
                 if isinstance(v, Const) and isinstance(v.v, int):
@@ -478,12 +519,15 @@ class Interp:
         if isinstance(e, ast.Call):
             return self.call(e, env)
         if isinstance(e, ast.IfExp):
-            if truth(self.eval(e.test, env), e.test):
+            if self.truth(self.eval(e.test, env), e.test):
                 return self.eval(e.body, env)
             return self.eval(e.orelse, env)
         if isinstance(e, ast.JoinedStr):
             return Opaque("fstring")
         if isinstance(e, (ast.ListComp, ast.GeneratorExp, ast.SetComp, ast.DictComp)):
+            r = self.comprehension(e, env)
+            if r is not None:
+                return r
             return self.w.eval_comprehension(self, e, env)
         raise Unsupported(e, "expression kind %s" % type(e).__name__)
 
@@ -523,8 +567,6 @@ class Interp:
         if isinstance(a, (Int, Const)) and isinstance(b, (Int, Const)) and not (
                 isinstance(a, Const) and not isinstance(a.v, (int, float)) or
                 isinstance(b, Const) and not isinstance(b.v, (int, float))):
-            if isinstance(a, Const) != isinstance(b, Const):
-                raise Unsupported(node, "comparison of a time term with a literal: %r %s %r" % (a, sym, b))
             return self.cmp_int(a, b, sym, node)
         if sym in ("==", "!="):
             r = self.generic_eq(a, b, node)
@@ -596,7 +638,48 @@ class Interp:
         return self.w.load_subscript(self, obj, key, node)
 
     def load_slice(self, obj, sl, env, node):
+        if isinstance(obj, (ListObj, TupleV)) and not getattr(obj, "has_prefix", False):
+            def bound(x):
+                if x is None:
+                    return None
+                v = self.eval(x, env)
+                if isinstance(v, Const) and isinstance(v.v, int):
+                    return v.v
+                raise Unsupported(node, "slice bound %r" % (v,))
+            items = list(obj.items)[slice(bound(sl.lower), bound(sl.upper), bound(sl.step))]
+            return ListObj(items) if isinstance(obj, ListObj) else TupleV(items)
         return self.w.load_slice(self, obj, sl, env, node)
+
+    def comprehension(self, e, env):
+        """List / generator / set comprehensions over concrete abstract sequences."""
+        if isinstance(e, ast.DictComp):
+            return None
+        out = []
+
+        def rec(i, env2):
+            if i == len(e.generators):
+                out.append(self.eval(e.elt, env2))
+                return
+            g = e.generators[i]
+            if g.is_async:
+                raise Unsupported(e, "async comprehension")
+            it = self.eval(g.iter, env2)
+            if isinstance(it, IterV):
+                seq = it.drain()
+            elif isinstance(it, (ListObj, TupleV)):
+                seq = list(it.items)
+            else:
+                raise _NotConcrete()
+            for x in seq:
+                env3 = dict(env2)
+                self.assign(g.target, x, env3)
+                if all(self.truth(self.eval(c, env3), c) for c in g.ifs):
+                    rec(i + 1, env3)
+        try:
+            rec(0, env)
+        except _NotConcrete:
+            return None
+        return ListObj(out)
 
     def load_attr(self, obj, attr, node):
         if isinstance(obj, ListObj) and attr in ("append", "pop", "extend", "insert", "sort", "reverse", "clear", "remove"):
@@ -608,15 +691,26 @@ class Interp:
     # -- calls -------------------------------------------------------------------
     def call(self, e, env):
         f = self.eval(e.func, env)
-        if any(isinstance(a, ast.Starred) for a in e.args) or any(k.arg is None for k in e.keywords):
+        if any(isinstance(a, ast.Starred) for a in e.args):
             raise Unsupported(e, "star arguments")
         args = [self.eval(a, env) for a in e.args]
-        kwargs = {k.arg: self.eval(k.value, env) for k in e.keywords}
+        kwargs = {}
+        for k in e.keywords:
+            v = self.eval(k.value, env)
+            if k.arg is None:
+                # **mapping: only a dict with constant string keys can be spliced
+                if isinstance(v, DictObj) and all(isinstance(x, Const) and isinstance(x.v, str) for x in v.entries):
+                    for kk, vv in v.entries.items():
+                        kwargs[kk.v] = vv
+                    continue
+                raise Unsupported(e, "** of %r" % (v,))
+            kwargs[k.arg] = v
         if isinstance(f, Builtin):
             return self.call_builtin(f.name, args, kwargs, e)
         if isinstance(f, TypeV):
-            if f.name in ("list", "tuple") and len(args) == 1 and isinstance(args[0], (ListObj, TupleV)):
-                return ListObj(args[0].items) if f.name == "list" else TupleV(args[0].items)
+            if f.name in ("list", "tuple") and len(args) == 1 and isinstance(args[0], (ListObj, TupleV, IterV)):
+                items = args[0].drain() if isinstance(args[0], IterV) else args[0].items
+                return ListObj(items) if f.name == "list" else TupleV(items)
             if f.name == "dict" and not args and not kwargs:
                 return DictObj()
             raise Unsupported(e, "constructor call")
@@ -649,6 +743,17 @@ class Interp:
                 return r if r is not None else Const(len(args[0].items))
             if isinstance(args[0], DictObj):
                 return Const(len(args[0].entries))
+        if name == "iter" and len(args) == 1 and isinstance(args[0], (ListObj, TupleV)):
+            return IterV(args[0].items)
+        if name == "next" and len(args) == 1 and isinstance(args[0], IterV):
+            it = args[0]
+            if it.pos >= len(it.items):
+                raise AbstractRaise("StopIteration", node, detail="next() on an exhausted iterator")
+            it.pos += 1
+            return it.items[it.pos - 1]
+        if name == "zip" and args and all(isinstance(a, (ListObj, TupleV, IterV)) for a in args):
+            seqs = [a.drain() if isinstance(a, IterV) else list(a.items) for a in args]
+            return ListObj([TupleV(t) for t in zip(*seqs)])
         r = self.w.call_builtin(self, name, args, kwargs, node)
         if r is not None:
             return r
